@@ -107,6 +107,14 @@ def import_spellings(q):
            ("importlib_import_module", f"import importlib\nimportlib.import_module('{q}')\n"),
            ("importlib_dunder", f"import importlib\nimportlib.__import__('{q}')\n"),
            ("importlib_kw", f"import importlib\nimportlib.import_module(name='{q}')\n"),
+           # the other arguments of the import functions do not change WHICH module is imported (seeded change C01-m15 matched `module.item` for each fromlist entry
+           # instead of the module)
+           ("dunder_import_fromlist_kw", f"__import__('{q}', fromlist=['thing'])\n"),
+           ("dunder_import_fromlist_tuple", f"__import__('{q}', fromlist=('alpha', 'beta'))\n"),
+           ("dunder_import_five_args", f"__import__('{q}', globals(), locals(), ['thing'], 0)\n"),
+           ("dunder_import_level_kw", f"__import__('{q}', level=0)\n"),
+           ("importlib_package_kw", f"import importlib\nimportlib.import_module('{q}', package=None)\n"),
+           ("importlib_dunder_fromlist", f"import importlib\nimportlib.__import__('{q}', fromlist=['thing'])\n"),
            ("import_multi", f"import os, {q}\n"),
            ("import_backslash", f"import os, \\\n    {q}\n"),
            ("from_paren_multiline", f"from {q} import (\n    alpha,\n    beta,\n)\n"),
@@ -174,6 +182,20 @@ def _run_main(res, ctx):
                         src = tmpl.format(pre=pre, call=call)
                         line = pre.count("\n") + 1 + off
                         cases.append((src, ("hit", first["id"], first.get("level", "MEDIUM"), line), dict(kind="call", rule=r["id"], q=q, spelling=label, context=cname, layout=lay)))
+            # the callee expression itself is split over lines (a dotted name continued after a line break, inside parentheses or after a backslash): the
+            # finding is reported where the CALL starts (seeded change C01-m16 reported the line on which the callee name ends)
+            for label, pre, callee in call_spellings(q):
+                if "." not in callee:
+                    continue
+                head, tail = callee.rsplit(".", 1)
+                base = pre.count("\n") + 1
+                splits = [("callee_split_paren", f"{pre}v = ({head}\n     .{tail}(a))\n", base),
+                          ("callee_split_backslash", f"{pre}v = {head} \\\n    .{tail}(a)\n", base),
+                          ("callee_split_dot_first", f"{pre}v = ({head}.\n     {tail}(a))\n", base),
+                          ("callee_split_in_default", f"{pre}def g_(x=({head}\n        .{tail}(a))):\n    pass\n", base),
+                          ("callee_split_in_list", f"{pre}vs = [\n    1,\n    {head}\n    .{tail}(a),\n]\n", base + 2)]
+                for cname, src, line in (splits if thorough else rng.sample(splits, 2)):
+                    cases.append((src, ("hit", first["id"], first.get("level", "MEDIUM"), line), dict(kind="call", rule=r["id"], q=q, spelling=label, context=cname, layout="(a)")))
             # a function that uses the module is defined ABOVE the module-level import statement (source order != execution order)
             if "." in q:
                 mod = q.rsplit(".", 1)[0]
